@@ -36,19 +36,19 @@ var AllFileFaults = []string{ENOENT, EIO, VANISH, SHORT, TORN, FLIP, DUPBLOCK, S
 // Fault is one planned storage fault.
 type Fault struct {
 	Kind string `json:"kind"`
-	Path string `json:"path"`          // cleaned path of the file or directory
-	Nth  int    `json:"nth"`           // fires on the Nth access (0-based) to Path with the matching operation
-	A    int    `json:"a,omitempty"`   // offset / block start / bit index
-	B    int    `json:"b,omitempty"`   // block length / second parameter
+	Path string `json:"path"`           // cleaned path of the file or directory
+	Nth  int    `json:"nth"`            // fires on the Nth access (0-based) to Path with the matching operation
+	A    int    `json:"a,omitempty"`    // offset / block start / bit index
+	B    int    `json:"b,omitempty"`    // block length / second parameter
 	From string `json:"from,omitempty"` // STALE: path whose content is served instead
 }
 
 // Access is one logged disk access.
 type Access struct {
-	Op     string // "readfile" or "readdir"
-	Path   string
-	OK     bool
-	Fault  string
+	Op    string // "readfile" or "readdir"
+	Path  string
+	OK    bool
+	Fault string
 }
 
 // Disk is the simulated disk.
